@@ -559,3 +559,157 @@ Section Scope.
       try (apply RL_projection; ok_some); try (apply RL_transform; ok_some); try (apply RL_date_time; ok_some).
   Qed.
 End Scope.
+
+(** * the root element and the document *)
+
+Lemma decl_items : forall sc0 exts rest,
+  flat_map (item_bytes sc0) (map ItDecl (map (fun e => mkXNs (Some (e_namespace e)) (e_url e)) exts)) ++ 32 :: rest =
+  32 :: flat_map extension_xmlns exts ++ rest.
+Proof.
+  intros sc0 exts rest. induction exts as [|e r IH]; [reflexivity|].
+  cbn [map flat_map]. rewrite <- app_assoc, IH.
+  unfold item_bytes, extension_xmlns. cbn [item_name item_value xns_prefix xns_uri].
+  rewrite wesc_url. unfold S_XMLNS. listnorm. reflexivity.
+Qed.
+
+Lemma prefix_is_eq : forall sc ns p, prefix_is sc ns p = true -> elem_prefix sc ns = Some p.
+Proof.
+  intros sc ns p H. unfold prefix_is in H. destruct (elem_prefix sc ns) as [q|]; [|discriminate].
+  destruct q as [q|], p as [p|]; cbn [opt_str_eqb] in H; try discriminate; [|reflexivity].
+  apply xstr_eqb_eq in H. now subst.
+Qed.
+
+Lemma render_root : forall exts ch body,
+  elem_prefix (scope_of exts) (Some E57_URI) = Some None ->
+  RLs exts (ename (B "e57Root")) STRUCT_ATTRS ch body ->
+  render_node W [0%nat] None no_name [] (t_struct (scope_of exts) (B "e57Root") ch) =
+  root_open exts ++ body ++ close_tag (B "e57Root").
+Proof.
+  intros exts ch body He57 Hch. unfold t_struct, el.
+  rewrite render_node_elem. cbv zeta.
+  change (rc_elem W [0%nat] (XElem (ename (B "e57Root")) [ty (B "Structure")] (scope_of exts) (lines ch)))
+    with writer_elem_choice.
+  cbn [xn_ns ename]. rewrite He57.
+  cbn [or_default own_decls writer_elem_choice ec_merge ec_self_close ec_ws_close blanks filter merge_items map xn_local qname].
+  rewrite writer_items.
+  rewrite (children_lines exts (ename (B "e57Root")) STRUCT_ATTRS ch body [0%nat]) by (reflexivity || exact Hch).
+  unfold lines. unfold scope_of at 2. rewrite map_app, flat_map_app.
+  cbn [flat_map app map].
+  change (item_bytes (scope_of exts) (ItAttr (ty (B "Structure")))) with (B " type=""Structure""").
+  change (item_bytes (scope_of exts) (ItDecl (mkXNs None E57_URI)) ++ [])
+    with (32 :: B "xmlns=""http://www.astm.org/COMMIT/E57/2010-e57-v1.0""").
+  rewrite <- !app_assoc.
+  rewrite (decl_items (scope_of exts) exts).
+  unfold root_open, close_tag, E57_NS. listnorm. reflexivity.
+Qed.
+
+Lemma pointclouds_xml_ok : forall l, pointclouds_xml l = Ok (flat_map pointcloud_bytes l).
+Proof.
+  induction l as [|pc r IH]; [reflexivity|].
+  cbn [pointclouds_xml flat_map]. rewrite pointcloud_xml_ok, IH. reflexivity.
+Qed.
+
+(** the bytes of the children of e57Root, grouped per child *)
+Definition root_body (m : file_meta) : list N :=
+  let r := fm_root m in
+  gen_string (B "formatName") (rt_format r) ++
+  gen_string (B "guid") (rt_guid r) ++
+  gen_int (B "versionMajor") (rt_major_version r) ++
+  gen_int (B "versionMinor") (rt_minor_version r) ++
+  opt_gen (gen_string (B "coordinateMetadata")) (rt_coordinate_metadata r) ++
+  opt_gen (gen_string (B "e57LibraryVersion")) (rt_library_version r) ++
+  opt_gen (date_time_xml (B "creationDateTime")) (rt_creation r) ++
+  (open_tag (B "data3D") (B " type=""Vector"" allowHeterogeneousChildren=""" ++ B "1" ++ B """")
+     ++ LF ++ flat_map pointcloud_bytes (fm_pointclouds m) ++ close_tag (B "data3D") ++ LF) ++
+  (open_tag (B "images2D") (B " type=""Vector"" allowHeterogeneousChildren=""" ++ B "1" ++ B """")
+     ++ LF ++ flat_map image_xml (fm_images m) ++ close_tag (B "images2D") ++ LF).
+
+Lemma gen_root_bytes : forall m, rt_format (fm_root m) = STD_FORMAT_NAME -> rt_guid (fm_root m) <> [] ->
+  gen_root m = Ok (XML_DECL ++ LF ++ root_open (fm_extensions m) ++ root_body m ++ close_tag (B "e57Root") ++ LF).
+Proof.
+  intros m Hf Hg. unfold gen_root, serialize_root.
+  destruct (rt_guid (fm_root m)) as [|g0 gr] eqn:Eg; [congruence|].
+  rewrite pointclouds_xml_ok. cbn [res_bind]. f_equal.
+  unfold root_body. rewrite Hf, Eg.
+  change (gen_string (B "formatName") STD_FORMAT_NAME)
+    with (B "<formatName type=""String""><![CDATA[ASTM E57 3D Imaging Data File]]></formatName>" ++ LF).
+  unfold VECTOR_ATTRS. rewrite <- !app_assoc. reflexivity.
+Qed.
+
+Lemma root_children : forall m,
+  let exts := fm_extensions m in
+  elem_prefix (scope_of exts) (Some E57_URI) = Some None ->
+  opt_ok date_time_ok (rt_creation (fm_root m)) = true ->
+  forallb (pointcloud_ok exts) (fm_pointclouds m) = true ->
+  forallb image_ok (fm_images m) = true ->
+  exists ch, t_root (scope_of exts) exts m = t_struct (scope_of exts) (B "e57Root") ch /\
+             RLs exts (ename (B "e57Root")) STRUCT_ATTRS ch (root_body m).
+Proof.
+  intros m exts He57 Hcr Hpcs Himgs. eexists. split; [reflexivity|].
+  unfold root_body. cbv zeta.
+  repeat first
+      [ apply RLs_nil
+      | apply RLs_one; [reflexivity|]
+      | apply RLs_app; [reflexivity| |]
+      | apply RLs_cons; [reflexivity| |]
+      | apply RLs_opt; [reflexivity|intros ? ?] ];
+    try (apply RL_string; exact He57); try (apply RL_int; exact He57).
+  - apply RL_date_time; [exact He57|]. eapply opt_ok_some; eassumption.
+  - apply (RL_vector exts He57 (B "data3D") true). apply RLs_map; [reflexivity|].
+    intros pc Hin. apply RL_pointcloud; [exact He57|]. rewrite forallb_forall in Hpcs. auto.
+  - apply (RL_vector exts He57 (B "images2D") true). apply RLs_map; [reflexivity|].
+    intros i Hin. apply RL_image; [exact He57|]. rewrite forallb_forall in Himgs. auto.
+Qed.
+
+(** ** the theorem *)
+Theorem gen_is_render : forall m bs,
+  writer_meta_ok m = true -> gen_root m = Ok bs -> bs = render writer_choices (tree_of m).
+Proof.
+  intros m bs Hok Hgen.
+  unfold writer_meta_ok in Hok.
+  repeat match goal with H : (_ && _) = true |- _ => apply andb_prop in H; destruct H end.
+  match goal with H : xstr_eqb _ STD_FORMAT_NAME = true |- _ => apply xstr_eqb_eq in H; rename H into Hfmt end.
+  match goal with H : prefix_is _ _ None = true |- _ => apply prefix_is_eq in H; rename H into He57 end.
+  assert (Hguid : rt_guid (fm_root m) <> []).
+  { intro E. unfold gen_root, serialize_root in Hgen. rewrite E in Hgen. discriminate. }
+  rewrite (gen_root_bytes m Hfmt Hguid) in Hgen. injection Hgen as <-.
+  destruct (root_children m) as [ch [Hch Hrl]]; try assumption.
+  unfold render, tree_of. cbn [xd_children rc_bom rc_decl writer_choices render_decl render_doc_nodes rc_doc_ws blanks filter is_blank app].
+  change (blanks [10]) with [10]. cbn [N.eqb orb].
+  rewrite Hch, (render_root (fm_extensions m) ch (root_body m) He57 Hrl).
+  unfold XML_DECL, DECL_STD, LF. listnorm. reflexivity.
+Qed.
+
+(** non-vacuity: a file with an extension, a point cloud (extension record, bounds, limits, pose,
+    strings with markup and the CDATA end marker) and a spherical image satisfies the hypotheses *)
+Definition xg_f (bits : N) (text : list N) : f64t := mkF64 bits text.
+Definition xg_example : file_meta :=
+  let one := xg_f 0x3ff0000000000000 (B "1") in
+  let half := xg_f 0x3fe0000000000000 (B "0.5") in
+  let ninf := xg_f 0xfff0000000000000 (B "-inf") in
+  mkFileMeta
+    (mkRoot STD_FORMAT_NAME (B "{guid}") 1 0 (Some (B "lib <&>")) (Some (mkDateTime half true)) (Some (B "a]]>b")))
+    [mkExtension (B "nor") (B "http://x/?a=1&b=""2""")]
+    [mkPointCloud (Some (B "pc]]>")) 48 2
+       [mkRecord CartesianX (DDouble None (Some one)); mkRecord CartesianY (DSingle (Some (mkF32 0x3f800000 (B "1"))) None);
+        mkRecord CartesianZ (DScaledInteger (-5) 5 half ninf); mkRecord Intensity (DInteger 0 255);
+        mkRecord (Unknown (B "nor") (B "normalX")) (DInteger (-9223372036854775808) 9223372036854775807)]
+       (Some [B "g1"; []]) (Some []) None
+       (Some (mkCb (Some ninf) (Some one) None None None None)) None
+       (Some (mkIb (Some (-1)%Z) None None None None None))
+       (Some (mkIl (Some (LInteger 0)) (Some (LInteger 255)))) None
+       (Some (mkTransform one half half half ninf one half)) (Some (mkDateTime one false)) None
+       (Some (B " ")) None None None None None (Some half) None None]
+    [mkImage (Some (B "img")) None
+       (Some (PSpherical (mkSphImg (mkImageBlob (mkBlob 1024 10) Jpeg) (Some (mkBlob 2048 3)) 4294967295 0 half one)))
+       None None (Some []) None None None None None].
+
+Example gen_is_render_applies :
+  writer_meta_ok xg_example = true /\ exists bs, gen_root xg_example = Ok bs /\ bs = render writer_choices (tree_of xg_example).
+Proof.
+  split; [vm_compute; reflexivity|].
+  destruct (gen_root xg_example) as [bs| |] eqn:E; try (vm_compute in E; discriminate).
+  exists bs. split; [reflexivity|]. apply gen_is_render; [vm_compute; reflexivity|exact E].
+Qed.
+
+Print Assumptions gen_is_render.
